@@ -648,6 +648,11 @@ func driveByz(rc *RunCtx) {
 	if (spec.Field == "facProof" || spec.Field == "modProof") && pr.NoProofs {
 		covered = false
 	}
+	if strings.HasPrefix(spec.Kind, "cm:") && spec.Type == "ecdsa.signing.SignRound8Message" {
+		// U_i, T_i are only bound by their commitment; a deviator that commits to wrong values
+		// consistently is caught by sum(U) != sum(T), which cannot be attributed in GG18
+		covered = false
+	}
 	errs := 0
 	for _, n := range honest {
 		for _, e := range n.Errs {
@@ -723,7 +728,7 @@ func driveByz(rc *RunCtx) {
 		}
 		// rule 4: an erased honest old share => every honest new member emitted valid key data
 		for i, n := range pr.Olds {
-			if n == B {
+			if n == B || oracle != "C05" {
 				continue
 			}
 			if pr.oldXi(i).Sign() == 0 {
